@@ -45,15 +45,23 @@ namespace Pistache::Tcp
         void handleNewPeer(const std::shared_ptr<Peer>& peer);
         void onReady(const Aio::FdSet& fds) override;
 
+        // A queued write names its connection by descriptor number. By the time
+        // the transport's thread looks at the queue the connection may be gone
+        // and the number may belong to a connection accepted since: a caller
+        // that knows which peer it writes to passes the peer's id, and the write
+        // is dropped unless that peer is still the one behind the descriptor.
+        static constexpr size_t AnyPeer = static_cast<size_t>(-1);
+
         template <typename Buf>
-        Async::Promise<ssize_t> asyncWrite(Fd fd, const Buf& buffer, int flags = 0)
+        Async::Promise<ssize_t> asyncWrite(Fd fd, const Buf& buffer, int flags = 0,
+                                           size_t peerId = AnyPeer)
         {
             // Always enqueue reponses for sending. Giving preference to consumer
             // context means chunked responses could be sent out of order.
             return Async::Promise<ssize_t>(
                 [=](Async::Deferred<ssize_t> deferred) mutable {
                     BufferHolder holder { buffer };
-                    WriteEntry write(std::move(deferred), std::move(holder), fd, flags);
+                    WriteEntry write(std::move(deferred), std::move(holder), fd, flags, peerId);
                     writesQueue.push(std::move(write));
                 });
         }
@@ -151,17 +159,20 @@ namespace Pistache::Tcp
         struct WriteEntry
         {
             WriteEntry(Async::Deferred<ssize_t> deferred_, BufferHolder buffer_,
-                       Fd peerFd_, int flags_ = 0)
+                       Fd peerFd_, int flags_ = 0, size_t peerId_ = AnyPeer)
                 : deferred(std::move(deferred_))
                 , buffer(std::move(buffer_))
                 , flags(flags_)
                 , peerFd(peerFd_)
+                , peerId(peerId_)
             { }
 
             Async::Deferred<ssize_t> deferred;
             BufferHolder buffer;
             int flags = 0;
             Fd peerFd = -1;
+            // the peer the write is meant for (AnyPeer: whoever owns the descriptor)
+            size_t peerId = AnyPeer;
         };
 
         struct TimerEntry
